@@ -50,6 +50,20 @@ example : shouldBuild exU [47, 47, 32, 43, 98, 117, 105, 108, 100, 32, 119, 105,
 -- bytes of: "// +build linux,amd64 windows\n\npackage p\n"
 example : shouldBuild exU [47, 47, 32, 43, 98, 117, 105, 108, 100, 32, 108, 105, 110, 117, 120, 44, 97, 109, 100, 54, 52, 32, 119, 105, 110, 100, 111, 119, 115, 10, 10, 112, 97, 99, 107, 97, 103, 101, 32, 112, 10] exTags = true := by decide
 
+/-- The leading block is what the statement says: a prefix of the file's lines made of blank and
+// comment lines, ending in a blank line, and the longest such prefix. -/
+theorem leadingBlock_characterised (ls : List Bytes) :
+    leadingBlock ls <+: ls ∧
+    (∀ l ∈ leadingBlock ls, isBlank l = true ∨ isComment l = true) ∧
+    (∀ l, (leadingBlock ls).getLast? = some l → isBlank l = true) ∧
+    (∀ k, k ≤ ls.length → (∀ l ∈ ls.take k, isBlank l = true ∨ isComment l = true) →
+      (∃ l, (ls.take k).getLast? = some l ∧ isBlank l = true) → k ≤ (leadingBlock ls).length) :=
+  ⟨leadingBlock_prefix ls, leadingBlock_lines ls, leadingBlock_ends_blank ls, leadingBlock_maximal ls⟩
+
+-- "// a", "", "// b", "package p": the block is the first two lines (the comment attached to the package clause is not in it)
+example : leadingBlock [[47, 47, 32, 97], [], [47, 47, 32, 98], [112, 97, 99, 107, 97, 103, 101, 32, 112]] = [[47, 47, 32, 97], []] := by
+  decide
+
 /-- `MatchFile`: false exactly when `*` is not set and the name (cut at the first '.', everything
 before the first '_' ignored, a final `_test` dropped) ends in `_GOOS_GOARCH`, `_GOOS` or `_GOARCH`
 with a known token that the tags — android also selecting linux — do not select. -/
